@@ -403,6 +403,63 @@ Lemma serve_clean c locs f : wf_rel f ->
                    end.
 Proof. intros H. unfold serve. rewrite (serve_lookup_clean f H). reflexivity. Qed.
 
+(* a collected file is served by the dev server under its own name, unless a DIRECTORY of that name exists in a location *)
+Lemma flat_map_split {A B} (g : A -> list B) : forall locs l1 x l2,
+  flat_map g locs = l1 ++ x :: l2 ->
+  exists la l lb a b, locs = la ++ l :: lb /\ g l = a ++ x :: b /\ l1 = flat_map g la ++ a /\ l2 = b ++ flat_map g lb.
+Proof.
+  induction locs as [|h t IH]; intros l1 x l2 H; simpl in H.
+  - destruct l1; discriminate.
+  - apply app_eq_app in H as [m [[H1 H2]|[H1 H2]]].
+    + destruct m as [|y m'].
+      * rewrite app_nil_r in H1. simpl in H2. symmetry in H2.
+        destruct (IH [] x l2 H2) as [la [l [lb [a [b [E1 [E2 [E3 E4]]]]]]]].
+        exists (h :: la), l, lb, a, b. split; [rewrite E1; reflexivity|]. split; [exact E2|]. split; [|exact E4].
+        simpl. rewrite <- app_assoc, <- E3, app_nil_r. symmetry. exact H1.
+      * simpl in H2. inversion H2; subst. exists [], h, t, l1, m'. simpl. auto.
+    + destruct (IH m x l2 H2) as [la [l [lb [a [b [E1 [E2 [E3 E4]]]]]]]].
+      exists (h :: la), l, lb, a, b. split; [rewrite E1; reflexivity|]. split; [exact E2|]. split; [|exact E4].
+      simpl. rewrite <- app_assoc, <- E3. exact H1.
+Qed.
+
+Lemma in_list_loc c l r f :
+  In (r, f) (list_loc c l) <-> loc_root l = r /\ loc_present l = true /\ In f (files (loc_tree l)) /\ exposable c f.
+Proof.
+  unfold list_loc. destruct (loc_present l).
+  - rewrite in_map_iff. split.
+    + intros [f' [[= <- <-] H]]. apply list_spec in H. tauto.
+    + intros [<- [_ [H1 H2]]]. exists f. split; [reflexivity|]. apply list_spec. auto.
+  - split; [intros [] | intros [_ [H _]]; discriminate].
+Qed.
+
+Lemma serve_collected c locs r f :
+  (forall l, In l locs -> resolved_dir (loc_root l)) -> wf_rel f ->
+  (forall l, In l locs -> loc_present l = true -> ~ In f (dirs (loc_tree l))) ->
+  In (r, f) (collected c locs) ->
+  serve c locs f = SFile (r ++ SLASH :: f).
+Proof.
+  intros Hres Hwf Hnd H. apply collected_spec in H as [l1 [l2 [E Hn]]].
+  unfold finder_list_all in E. apply flat_map_split in E as [la [l0 [lb [a [b [-> [E2 [-> _]]]]]]]].
+  assert (H0 : In (r, f) (list_loc c l0)) by (rewrite E2; apply in_or_app; right; left; reflexivity).
+  apply in_list_loc in H0 as [Er [Hp [Hf Hex]]].
+  assert (Hin0 : In l0 (la ++ l0 :: lb)) by (apply in_or_app; right; left; reflexivity).
+  assert (Hfirst : find_first c (la ++ l0 :: lb) f = FFound (r ++ SLASH :: f)).
+  { apply find_first_found. exists la, l0, lb. split; [reflexivity|]. split.
+    - intros l' Hi'. assert (Hin' : In l' (la ++ l0 :: lb)) by (apply in_or_app; left; exact Hi').
+      destruct (find_loc_clean c l' f (Hres l' Hin') Hwf) as [[Hc|Hc] Hiff]; [|exact Hc]. exfalso.
+      apply Hiff in Hc as [Hw _]. apply loc_world_present in Hw as [Hp' Hw]. apply in_world_below in Hw.
+      apply in_app_or in Hw as [Hd|Hf']; [exact (Hnd l' Hin' Hp' Hd)|].
+      apply Hn. rewrite map_app. apply in_or_app. left. apply in_map_iff. exists (loc_root l', f). split; [reflexivity|].
+      apply in_flat_map. exists l'. split; [exact Hi'|]. apply in_list_loc. auto.
+    - rewrite <- Er. apply (find_loc_clean c l0 f (Hres l0 Hin0) Hwf). split; [|exact Hex].
+      unfold loc_world. rewrite Hp. apply in_world_below. apply in_or_app. right. exact Hf. }
+  rewrite (serve_clean c _ f Hwf), Hfirst.
+  assert (Hex' : existsb (fun l => is_file_of l (r ++ SLASH :: f)) (la ++ l0 :: lb) = true).
+  { apply existsb_exists. exists l0. split; [exact Hin0|]. unfold is_file_of. rewrite Hp. cbn [andb].
+    apply existsb_exists. exists f. split; [exact Hf|]. rewrite Er. apply str_eqb_refl. }
+  rewrite Hex'. reflexivity.
+Qed.
+
 (* ================================================================================================ *)
 (* 10. default settings, several roots                                                               *)
 (* ================================================================================================ *)
